@@ -427,7 +427,7 @@ _EXC = {n: getattr(_bi, n)
 
 _PURE = {n: getattr(_bi, n)
          for n in ("len", "range", "int", "float", "bool", "str", "any", "all", "sum", "min", "max", "abs", "sorted", "reversed", "enumerate", "zip",
-                   "list", "dict", "set", "tuple", "frozenset", "round", "iter", "next", "map", "filter", "repr", "divmod", "pow", "object", "id", "callable", "hash")}
+                   "list", "dict", "set", "tuple", "frozenset", "complex", "round", "iter", "next", "map", "filter", "repr", "divmod", "pow", "object", "id", "callable", "hash")}
 
 
 class Interp(object):
@@ -439,7 +439,22 @@ class Interp(object):
         self.builtins.update(_EXC)
         self.builtins.update({"isinstance": _isinstance(self), "hasattr": self._hasattr, "getattr": self._getattr3, "setattr": self._setattr3,
                               "print": lambda *a, **k: None, "True": True, "False": False, "None": None, "NotImplemented": NotImplemented,
-                              "type": self._type, "issubclass": self._issubclass})
+                              "type": self._type, "issubclass": self._issubclass, "len": self._len})
+
+    # ---------------------------------------------------------------- operator protocol of repository classes
+    def _dunder(self, obj, name):
+        """the bound special method `name` an instance of a repository class defines (own or inherited from a repository class), else None."""
+        if isinstance(obj, Instance):
+            m, _c = obj._cls.find(name)
+            if isinstance(m, Closure) and m.kind == "function":
+                return m.bind(obj)
+        return None
+
+    def _len(self, o):
+        m = self._dunder(o, "__len__")
+        if m is not None:
+            return m()
+        return len(o)
 
     # ---------------------------------------------------------------- helpers exposed as builtins
     def _hasattr(self, o, a):
@@ -487,6 +502,19 @@ class Interp(object):
     # ---------------------------------------------------------------- attribute protocol
     def getattr_(self, obj, attr, node=None):
         if attr.startswith("__") and attr not in ("__name__", "__class__") and not (attr == "__init__" and isinstance(obj, (Instance, ClassRef, SuperProxy))):
+            special = None
+            if attr.endswith("__") and isinstance(obj, (Instance, SuperProxy)):
+                # a special method DEFINED by a repository class, called by name (reg.__delitem__(k), super().__delitem__(k))
+                for cr in ([obj._cls] if isinstance(obj, Instance) else [b for b in obj.start.bases() if isinstance(b, ClassRef)]):
+                    m, _c = cr.find(attr)
+                    if isinstance(m, Closure) and m.kind == "function":
+                        special = m.bind(obj if isinstance(obj, Instance) else obj.inst)
+                        break
+            elif attr in ("__iter__", "__len__", "__contains__", "__getitem__", "__setitem__", "__delitem__") and \
+                    type(obj) in (dict, collections.OrderedDict, list, set, frozenset, tuple, str):
+                special = getattr(obj, attr)      # d.__iter__() is iter(d) on a plain container
+            if special is not None:
+                return special
             raise Unsupported("access to special attribute %s" % attr)
         if isinstance(obj, Instance):
             if attr in obj._attrs:
@@ -693,7 +721,24 @@ class Interp(object):
         raise ProgramError(NameError("name %r is not defined" % n.id), n.lineno)
 
     def e_Attribute(self, n, fr):
+        if n.attr.startswith("__") and not n.attr.endswith("__"):
+            return self._private_attr(self.ev(n.value, fr), n.attr, fr, n)
         return self.getattr_(self.ev(n.value, fr), n.attr, n)
+
+    def _private_attr(self, obj, attr, fr, node):
+        """read of a class-private name (`self.__subsets` inside class C is `_C__subsets`): resolved in the class whose method is running."""
+        f = fr
+        while f is not None and f.owner is None:
+            f = f.parent
+        owner = f.owner if f is not None else None
+        if isinstance(owner, ClassRef) and isinstance(obj, (Instance, ClassRef)):
+            mangled = "_%s%s" % (owner.name.lstrip("_"), attr)
+            if isinstance(obj, Instance) and mangled in obj._attrs:
+                return obj._attrs[mangled]
+            cls = obj._cls if isinstance(obj, Instance) else obj
+            if cls.is_sub(owner) and attr in owner.members():
+                return self._member(owner.members()[attr], owner, obj if isinstance(obj, Instance) else None, cls)
+        return self.getattr_(obj, attr, node)
 
     def e_Subscript(self, n, fr):
         base = self.ev(n.value, fr)
@@ -701,6 +746,9 @@ class Interp(object):
         return self.getitem(base, key, n)
 
     def getitem(self, base, key, node=None):
+        m = self._dunder(base, "__getitem__")
+        if m is not None:
+            return m(key)
         if isinstance(base, (AutoMock, Instance, ClassRef, Closure)):
             raise Unsupported("subscript of %r at line %s" % (base, getattr(node, "lineno", "?")))
         try:
@@ -767,6 +815,8 @@ class Interp(object):
         if isinstance(v, Instance):
             m, _ = v._cls.find("__bool__")
             m2, _ = v._cls.find("__len__")
+            if m is None and m2 is not None and self._dunder(v, "__len__") is not None:
+                return self._dunder(v, "__len__")() != 0          # Python: no __bool__ -> len(x) != 0
             if m is not None or m2 is not None:
                 raise Unsupported("truth value of an instance of %s (defines __bool__/__len__)" % v._cls.name)
             return True
@@ -847,6 +897,10 @@ class Interp(object):
         if isinstance(op, ast.IsNot):
             return a is not b
         if isinstance(op, (ast.In, ast.NotIn)):
+            m = self._dunder(b, "__contains__")
+            if m is not None:
+                r = self.truth(m(a), node)
+                return r if isinstance(op, ast.In) else not r
             if isinstance(b, (AutoMock, Instance, ClassRef, Closure)):
                 raise Unsupported("membership test in %r at line %s" % (b, getattr(node, "lineno", "?")))
             try:
@@ -917,6 +971,9 @@ class Interp(object):
         return out
 
     def iterate(self, v, node=None):
+        m = self._dunder(v, "__iter__")
+        if m is not None:
+            return iter(self.iterate(m(), node))
         if isinstance(v, (AutoMock, Instance, ClassRef, Closure, RepoModule)):
             raise Unsupported("iteration over %r at line %s" % (v, getattr(node, "lineno", "?")))
         try:
@@ -1045,6 +1102,10 @@ class Interp(object):
             raise Unsupported("augmented assignment target")
 
     def setitem(self, obj, key, val, node=None):
+        m = self._dunder(obj, "__setitem__")
+        if m is not None:
+            m(key, val)
+            return
         if isinstance(obj, (AutoMock, Instance, ClassRef, Closure)):
             raise Unsupported("item store into %r at line %s" % (obj, getattr(node, "lineno", "?")))
         try:
@@ -1103,6 +1164,10 @@ class Interp(object):
             elif isinstance(t, ast.Subscript):
                 obj = self.ev(t.value, fr)
                 key = self.ev(t.slice, fr)
+                m = self._dunder(obj, "__delitem__")
+                if m is not None:
+                    m(key)
+                    continue
                 if isinstance(obj, (AutoMock, Instance)):
                     raise Unsupported("del item of %r" % (obj,))
                 try:
